@@ -63,7 +63,7 @@ inductive Res
   /-- the name is not a Parameter there: plain Python attribute assignment, outside the model -/
   | skip
   | valueError | typeError | keyError
-  /-- `__param_inheritance` re-validation failed inside `add_parameter` -/
+  /-- `__param_inheritance` re-validation failed inside `add_parameter` (the class is left as it was) -/
   | runtimeError
   /-- dangling class / instance / Parameter index: unreachable from well-formed states -/
   | stuck
@@ -204,13 +204,16 @@ def step (s : St) : Op → St × Res
       -- `param.Integer(default=d, bounds=(None, hi))` validates its own default
       if !({ default := d, hi := hi } : Param).accepts d then (s, .valueError) else
       let p := s.heap.length
-      -- type.__setattr__(cls, name, obj) runs first ...
+      -- type.__setattr__(cls, name, obj) runs first (remembering what was there) ...
       let s1 := setDict { s with heap := s.heap ++ [{ default := d, hi := hi }] } c n p
       -- ... then _initialize_parameter: slot inheritance, slots stored, re-validation
       let q : Param := { default := d, hi := resolvedHi s1 p k.mro n hi }
-      let s2 := { s1 with heap := s1.heap.set p q }
-      if q.accepts d then (clearDesc s2 c, .ok)
-      else (s2, .runtimeError)      -- raised before the caches are cleared
+      if q.accepts d then (clearDesc { s1 with heap := s1.heap.set p q } c, .ok)
+      else
+        -- the re-validation raised: the previous class attribute is put back (or the new one
+        -- deleted) and the exception re-raised; the Parameter object exists but is not installed,
+        -- and no cache is touched
+        ({ s with heap := s.heap ++ [q] }, .runtimeError)
   | .newInst c kw =>
     match s.classes[c]? with
     | none => (s, .stuck)
@@ -299,14 +302,16 @@ def instValues (s : St) (i : IId) (n : Name) : Option Int :=
   match instExisting s i n with | some _ => instAttr s i n | none => none
 
 /-- `obj.param.values()[n]` / serialisation when the Parameter *type* is `Dynamic` (Number, Integer):
-src Parameters.get_value_generator, last branch — the stored value, else the `default` of the
-Parameter object `objects('existing')` returns (the per-instance copy when there is one) -/
+src Parameters.get_value_generator, last branch — the stored value, else the `default` of
+`objects(instance=False).get(name, param_obj)`: the namespace entry of the class, falling back to
+the Parameter object `objects('existing')` returned -/
 def instValuesDyn (s : St) (i : IId) (n : Name) : Option Int :=
   match s.insts[i]? with
   | none => none
   | some x =>
     match instExisting s i n with
-    | some p => (aget x.values n).or (defaultOf s p)
+    | some p =>
+      (aget x.values n).or (defaultOf s (match aget (nsView s x.cls) n with | some pc => pc | none => p))
     | none => none
 
 /-- class level, `Dynamic` type: the namespace entry's `default` -/
